@@ -10,6 +10,8 @@ to what it returns; when the validator rejects, an exact witness point is search
 import math
 from fractions import Fraction
 
+import zlib
+
 import numpy as np
 
 import core
@@ -76,7 +78,11 @@ def run_one(ctx, A, C, p, kind, eps, suc, tol, so, bits_vec, replay_base):
     SESSION.append({"poly": list(p), "eps": eps, "suc": suc, "tolerance": tol, "signal_operator": so, "seed_bits": bits_vec})
     try:
         with core.quiet(), P.forced_seed(bits_vec) as calls:
-            ph = A.QuantumSignalProcessingPhases(list(p), eps=eps, suc=suc, signal_operator=so, tolerance=tol)
+            if (eps, suc, tol) == (1e-4, 1 - 1e-4, 1e-6) and zlib.crc32(repr((list(p), so)).encode()) % 2 == 0:
+                ctx.count("settings:library-defaults")        # the documented defaults, left to the library
+                ph = A.QuantumSignalProcessingPhases(list(p), signal_operator=so)
+            else:
+                ph = A.QuantumSignalProcessingPhases(list(p), eps=eps, suc=suc, signal_operator=so, tolerance=tol)
         out = ("ok", [float(x) for x in ph])
         core.poison(ph)          # the caller owns the returned list; the library must not have kept it
     except C.CompletionError as e:
